@@ -107,6 +107,12 @@ func synStore(items []SynItem, edges []SynEdge) core.Store {
 
 // synStoreNoise additionally links and then unlinks every edge in noise (net effect: none).
 func synStoreNoise(items []SynItem, edges, noise []SynEdge) core.Store {
+	return synStoreOpts(items, edges, noise, false)
+}
+
+// synStoreOpts: reverseCreates writes the create events in reverse log order while keeping their timestamps
+// (a hand-merged log: position in the file and creation time disagree).
+func synStoreOpts(items []SynItem, edges, noise []SynEdge, reverseCreates bool) core.Store {
 	l := newSynLog()
 	for _, it := range items {
 		c := it
@@ -114,6 +120,11 @@ func synStoreNoise(items []SynItem, edges, noise []SynEdge) core.Store {
 			c.In = *it.CreatedIn
 		}
 		l.Create(c)
+	}
+	if reverseCreates {
+		for i, j := 0, len(l.lines)-1; i < j; i, j = i+1, j-1 {
+			l.lines[i], l.lines[j] = l.lines[j], l.lines[i]
+		}
 	}
 	for _, e := range noise {
 		l.Link(e.From, e.To)
